@@ -15,8 +15,9 @@ ROWS = [
      "why": "uncompactCells never writes at or beyond the capacity numOut"},
     {"id": "polygonToCellsExperimental.out", "props": ["C15"], "fn": "polygonToCellsExperimental", "mod": "ssa", "buf": "out", "bound": {"param": "size"}, "allow": "<", "full_code": 14,
      "why": "a smaller capacity yields E_MEMORY_BOUNDS without overrun"},
-    {"id": "gridPathCells.out", "props": ["C14"], "fn": "gridPathCells", "mod": "ssa", "buf": "out", "bound": {"local": "distance"}, "allow": "<=",
-     "why": "announced size is distance+1: indexes 0..distance only, also on the failing exits"},
+    {"id": "gridPathCells.out", "props": ["C14"], "fn": "gridPathCells", "mod": "ssa", "buf": "out", "bound": {"local": "distance"}, "allow": "<=", "bound_min": 0,
+     "why": "announced size is distance+1: indexes 0..distance only, also on the failing exits; a successful gridDistance yields a distance >= 0 (trusted: it is a maximum of absolute "
+            "values), so slot 0 always lies inside the announced size"},
     {"id": "getIcosahedronFaces.out", "props": ["C19"], "fn": "getIcosahedronFaces", "mod": "inl", "buf": "out", "bound": {"local": "faceCount"}, "allow": "<",
      "why": "only the maxFaceCount(cell) slots are written"},
 ]
@@ -52,6 +53,11 @@ def _bound_keys(m, f, row):
     if not keys:
         raise AnalysisBroken("row %s: local '%s' not found in %s" % (row["id"], name, f.name))
     return sorted(set(keys))
+
+
+def explore_cint(o):
+    v, bits = o[1], o[2]
+    return v - (1 << bits) if v >> (bits - 1) else v
 
 
 def check(ctx, get_module, props_sel, cfg="release", rule="R-BW"):
@@ -136,6 +142,11 @@ def _check_row(ctx, get_module, row, cfg, rule):
                 for bkk in bounds:
                     r = ex.rel_of(s.env, idx if idx is not None else ["c", 0, 64], list(bkk))
                     if r is not None and r <= allowed:
+                        good = True
+                # a constant index that does not exceed the smallest value the bound can have (row "bound_min") is inside for every bound
+                if not good and "bound_min" in row and "=" in allowed:
+                    cidx = 0 if idx is None else (explore_cint(idx) if idx[0] == "c" else None)
+                    if cidx is not None and 0 <= cidx <= row["bound_min"]:
                         good = True
                 # a non-negative lower bound is needed as well (signed index)
                 if good and idx is not None and idx[0] in ("i", "a"):
